@@ -24,7 +24,7 @@ def run_impl(c, fn):
     from skchange.change_detectors import MovingWindow
     p = len(c["score"])
     X = pd.DataFrame(np.zeros((c["n"], p)))
-    d = MovingWindow(change_score=ts.FnChangeScore(fn, p, int_dtype=(c["n"] + c["b"]) % 3 == 0), bandwidth=c["b"], threshold_scale=1.0,
+    d = MovingWindow(change_score=(ts.FnChangeScoreSub(None, fn, p) if (c["n"] + c["b"]) % 3 == 1 else ts.FnChangeScore(fn, p, int_dtype=(c["n"] + c["b"]) % 3 == 0)), bandwidth=c["b"], threshold_scale=1.0,
                      min_detection_interval=c["mdi"]).fit(pd.DataFrame(np.zeros((len(X) + (len(X) * 7 + 3) % 5, X.shape[1]))))
     d.threshold_ = float(c["thr"])
     scores = d.transform_scores(X).to_numpy()
